@@ -1156,6 +1156,11 @@ func (fr *Frame) backEdge(u, h *ssa.BasicBlock, st *State) {
 			}
 		}
 	}
+	// vacuity guard: the back edge must be reachable in the encoding, or every step / preservation obligation below is
+	// discharged by a dead path (a contradictory callee postcondition, an over-strong assumption)
+	if o := fx.oblige(st.clone(), "cover", fmt.Sprintf("loop%d-backedge-reachable", ord), False, token.NoPos); o != nil {
+		o.Expect = "canary"
+	}
 	work := st.clone()
 	for i, c := range spec.Inv {
 		env := fr.specEnv(work, h, nil)
@@ -1286,7 +1291,11 @@ func (fr *Frame) loopGhostMods(h int) map[string]bool {
 				} else if sc := c.StaticCallee(); sc != nil {
 					name = fx.eng.shortName(sc)
 				}
-				events = append(events, "call:"+name)
+				if _, isDefer := in.(*ssa.Defer); isDefer {
+					events = append(events, "defer:"+name)
+				} else {
+					events = append(events, "call:"+name)
+				}
 			case *ssa.MapUpdate:
 				events = append(events, "mapupdate:"+typeKey(x.Map.Type()))
 			case *ssa.Lookup:
